@@ -21,7 +21,7 @@ import (
 	"github.com/EliCDavis/vector/vector3"
 )
 
-var moreOpNames = []string{"scalealongnormal", "scale2d", "normalize2d", "copyattr", "crop", "cropnode", "alongnormalnode"}
+var moreOpNames = []string{"scalealongnormal", "scale2d", "normalize2d", "copyattr", "crop", "cropnode", "alongnormalnode", "translatenode", "rotatenode", "scalenode"}
 
 func (c *Ctx) pickV2Attr(m modeling.Mesh) string {
 	names := m.Float2Attributes()
@@ -215,6 +215,64 @@ func (c *Ctx) applyMore(name string, m modeling.Mesh) (opRun, bool) {
 			}
 			return one(out)
 		}), true
+	case "translatenode": // TranslateAttribute3DNodeData.Process: attribute optional
+		t := c.mv3()
+		nd := meshops.TranslateAttribute3DNodeData{Mesh: nodes.Value(m).Out(), Amount: nodes.Value(t).Out()}
+		attrTok := "-"
+		if c.Rng.Intn(2) == 0 {
+			attrTok = c.pickV3Attr(m)
+			nd.Attribute = nodes.Value(attrTok).Out()
+		}
+		return runOp(name, fmt.Sprintf("%s %s %s", attrTok, mvF(t), ms), false, func() []modeling.Mesh {
+			out, err := nd.Process()
+			if err != nil {
+				panic(err)
+			}
+			return one(out)
+		}), true
+	case "rotatenode": // RotateAttribute3DNodeData.Process: attribute and mesh optional
+		q := c.mquat()
+		nd := meshops.RotateAttribute3DNodeData{Amount: nodes.Value(q).Out()}
+		attrTok, meshTok := "-", "-"
+		if c.Rng.Intn(2) == 0 {
+			attrTok = c.pickV3Attr(m)
+			nd.Attribute = nodes.Value(attrTok).Out()
+		}
+		if c.Rng.Intn(8) != 0 {
+			meshTok = ms
+			nd.Mesh = nodes.Value(m).Out()
+		} else {
+			c.Note("rotatenode:no-mesh")
+		}
+		return runOp(name, fmt.Sprintf("%s %s %s", attrTok, mqF(q), meshTok), false, func() []modeling.Mesh {
+			out, err := nd.Process()
+			if err != nil {
+				panic(err)
+			}
+			return one(out)
+		}), true
+	case "scalenode": // ScaleAttribute3DNodeData.Process: attribute and origin optional
+		a := c.mv3()
+		nd := meshops.ScaleAttribute3DNodeData{Mesh: nodes.Value(m).Out(), Amount: nodes.Value(a).Out()}
+		attrTok, originTok := "-", "-"
+		if c.Rng.Intn(2) == 0 {
+			attrTok = c.pickV3Attr(m)
+			nd.Attribute = nodes.Value(attrTok).Out()
+		}
+		if c.Rng.Intn(2) == 0 {
+			o := c.mv3()
+			originTok = mvF(o)
+			nd.Origin = nodes.Value(o).Out()
+		} else {
+			c.Note("scalenode:default-origin")
+		}
+		return runOp(name, fmt.Sprintf("%s %s %s %s", attrTok, originTok, mvF(a), ms), false, func() []modeling.Mesh {
+			out, err := nd.Process()
+			if err != nil {
+				panic(err)
+			}
+			return one(out)
+		}), true
 	default: // crop, with the boundary boxes of applyOp
 		return c.applyOp("crop", m), true
 	}
@@ -229,6 +287,8 @@ func (c *Ctx) moreStart(name string) modeling.Mesh {
 			return c.startMesh()
 		}
 		return c.genMesh(meshGen{topo: []modeling.Topology{modeling.PointTopology}, needPos: c.Rng.Intn(6) != 0, maxVerts: 20, materials: true})
+	case "translatenode", "rotatenode", "scalenode":
+		return c.genMesh(meshGen{topo: topoAll, needPos: c.Rng.Intn(5) != 0, maxVerts: 20, materials: true})
 	case "alongnormalnode":
 		for i := 0; i < 4; i++ {
 			m := c.genMesh(meshGen{topo: topoAll, needPos: true, maxVerts: 20, materials: true})
